@@ -459,7 +459,7 @@ Print Assumptions C05_loops_rs_match_model.
    build mode and operand (no well-formedness hypothesis): an edit of the source that changes what one of these
    functions computes or delegates to breaks this theorem ---- *)
 From Bnum.Model Require Import Digit Core Shift AddSub Mul Div Bits Pow.
-From Bnum.Model Require Ops.
+From Bnum.Model Require Ops NumTraits.
 From Bnum.Generated Require Import Glue.
 From Bnum.Proofs Require Import GlueTieCommon GlueTieC05.
 Theorem C05_glue2_rs_matches_model :
